@@ -187,7 +187,7 @@ func run(cs Case) ev.Outcome {
 			},
 			func() ([]*big.Int, error) {
 				return circuit.Evaluator(eConn, eOT, circ, bitsToInt(y), false)
-			}, 3*time.Second, 120*time.Second)
+			}, 10*time.Second, 120*time.Second)
 	case "stream":
 		src = cs.Prog.Source()
 		params := utils.NewParams()
@@ -205,7 +205,7 @@ func run(cs Case) ev.Outcome {
 			func() ([]*big.Int, error) {
 				_, vals, err := circuit.StreamEvaluator(eConn, eOT, []string{cs.Y}, nil, false)
 				return vals, err
-			}, 3*time.Second, 120*time.Second)
+			}, 10*time.Second, 120*time.Second)
 	default:
 		return ev.Outcome{Skip: "unknown mode"}
 	}
